@@ -204,7 +204,7 @@ def sample_scenarios(rng, per_file):
                     m[q] = rng.randrange(256)
             ls = ["T.use " + rng.choice(["cur", "cur", "loc"]), "ds.decodemsg " + bytes(m).hex(), "dd.list 0", "dd.vals 0", "dd.vals 1"]
             out.append(Scenario("sample-%s-%d-%s" % (os.path.basename(f)[:-5], j, kind), ls,
-                                {"kind": "sample-" + kind, "tables": "cur", "nomodel": True}))
+                                {"kind": "sample-" + kind, "tables": "cur"}))
     return out
 
 def scenarios(rng, tier, runner):
